@@ -23,7 +23,9 @@ package ssh
 
 import (
 	"bufio"
+	"crypto"
 	"crypto/cipher"
+	"crypto/sha1"
 	"encoding/binary"
 	"errors"
 	"hash"
@@ -828,6 +830,83 @@ func Verif_C25_ChaChaLong() { c25ChaCha(1, 41, 130) }
 // Verif_C25_ChaChaSeq: two packets in sequence (nonce follows seqNum, incl. wrap), payload 1..6.
 func Verif_C25_ChaChaSeq() { c25ChaCha(2, 1, 6) }
 
+// ---------- generateKeyMaterial (RFC 4253 7.2) ----------
+
+var c25HashStub bool
+
+// (crypto.Hash).New is replaced by the ideal hash only while c25HashStub is set.
+//
+//verif:stub (crypto.Hash).New
+func c25StubHashNew(h crypto.Hash) hash.Hash {
+	if !verifrt.Symbolic() || !c25HashStub {
+		return h.New()
+	}
+	return &c25MAC{key: nil, size: 20}
+}
+
+// c25KDFHash is the hash of the key-derivation spec: ideal symbolically, SHA-1 natively.
+func c25KDFHash(data []byte) []byte {
+	if verifrt.Symbolic() {
+		return c25MacOracle(nil, 20, data)
+	}
+	s := sha1.Sum(data)
+	return s[:]
+}
+
+// Verif_C25_KeyMaterial: generateKeyMaterial for every output length 0..64 with a 20-byte
+// (ideal) hash: out = prefix of K1 || K2 || ... with K1 = HASH(K || H || tag || session_id),
+// Kn = HASH(K || H || K1 || ... || Kn-1). K, H, session id (3, 2, 2 bytes) and the tag symbolic.
+func Verif_C25_KeyMaterial() {
+	c25HashStub = true
+	n := verifrt.Choose(0, 64)
+	r := &kexResult{K: verifrt.Bytes(3), H: verifrt.Bytes(2), SessionID: verifrt.Bytes(2), Hash: crypto.SHA1}
+	tag := verifrt.Bytes(1)
+	out := make([]byte, n)
+	generateKeyMaterial(out, tag, r)
+	var want []byte
+	for len(want) < n {
+		if len(want) == 0 {
+			want = c25KDFHash(c25cat(r.K, r.H, tag, r.SessionID))
+		} else {
+			want = append(want, c25KDFHash(c25cat(r.K, r.H, want))...)
+		}
+	}
+	c25assertEq(out, want[:n], "kdf: output length", "kdf: out = K1 || K2 || ... truncated (RFC 4253 7.2)")
+	verifrt.Observe("kdf", out)
+	verifrt.Reach("kdf")
+}
+
+// ---------- thorough tier, grouped (one engine process per group) ----------
+
+// Verif_C25_TStream: all four streamPacketCipher MAC configurations, payload 1..40 each.
+func Verif_C25_TStream() {
+	c25StreamOne([]int{c25NoMAC, c25EAM, c25ETM, c25EAMTrunc}[verifrt.Choose(0, 3)], 1, 40)
+}
+
+// Verif_C25_TGCM: one gcm packet with payload 1..40, or three packets with payload 1..3 each.
+func Verif_C25_TGCM() {
+	if verifrt.Choose(0, 1) == 0 {
+		c25GCM(1, 1, 40)
+	} else {
+		c25GCM(3, 1, 3)
+	}
+}
+
+// Verif_C25_TChaCha: one chacha packet with payload 1..130, or two packets with payload 1..6 each.
+func Verif_C25_TChaCha() {
+	if verifrt.Choose(0, 1) == 0 {
+		c25ChaCha(1, 1, 130)
+	} else {
+		c25ChaCha(2, 1, 6)
+	}
+}
+
+// Verif_C25_TCBC16: aes128-cbc framing, payload 1..24 (packets of 16, 32 and 48 bytes).
+func Verif_C25_TCBC16() { c25CBCRun(16, 1, 1, 24) }
+
+// Verif_C25_TCBC8: 3des-cbc framing, payload 1..24 (packets of 16, 24, 32 and 40 bytes).
+func Verif_C25_TCBC8() { c25CBCRun(8, 1, 1, 24) }
+
 // ---------- quick tier (few engine processes: package loading dominates on a loaded machine) ----------
 
 // Verif_C25_QuickA: stream encrypt-and-MAC, stream EtM and chacha20-poly1305, payload 1..16 each.
@@ -842,12 +921,15 @@ func Verif_C25_QuickA() {
 	}
 }
 
-// Verif_C25_QuickB: gcm (payload 1..16, all IV values) and cbc with block size 8 (payload 1..8).
+// Verif_C25_QuickB: gcm (payload 1..16, all IV values), cbc with block size 8 (payload 1..8)
+// and generateKeyMaterial (output length 0..64).
 func Verif_C25_QuickB() {
-	switch verifrt.Choose(0, 1) {
+	switch verifrt.Choose(0, 2) {
 	case 0:
 		c25GCM(1, 1, 16)
 	case 1:
 		c25CBCRun(8, 1, 1, 8)
+	case 2:
+		Verif_C25_KeyMaterial()
 	}
 }
